@@ -557,7 +557,7 @@ def run(ctx):
             runs.append(("fresh", "-seed %d -n 12 -img 30 -exhaustive 1 -scen 12 -conc 30 -ndec 300" % ctx.seed))
             runs.append(("mega", "-seed %d -n 0 -img 0 -ndec 0 -mega 1" % ctx.seed))
         else:
-            runs.append(("fresh", "-seed %d -n 80 -img 120 -exhaustive 8 -big 2 -scen 80 -mega 1 -megak 0 -conc 300 -ndec 4000" % ctx.seed))
+            runs.append(("fresh", "-seed %d -n 50 -img 80 -exhaustive 6 -big 2 -scen 50 -mega 1 -megak 0 -conc 300 -ndec 4000" % ctx.seed))
             runs.append(("mega", "-seed %d -n 0 -img 0 -ndec 0 -mega 6" % ctx.seed))
 
     all_mism, all_fail, total = [], [], 0
